@@ -1,1 +1,143 @@
+import Goflow.Producer.Netflow
+import Goflow.Generated.NetflowCases
 import Goflow.Spec.FieldTable
+import Proofs.Lemmas.Bytes
+import Proofs.Lemmas.Numbers
+import Goflow.Producer.Legacy
+import Goflow.Pipe
+/-!
+  C08 — NetFlow v5/v9/IPFIX fields map to the flow message as documented.
+-/
+namespace Goflow.C08
+open Goflow Goflow.Producer
+
+def goCase (e : Nat × List Nat × Action) : Nat × List Nat × String := (e.1, e.2.1, e.2.2.goText)
+
+/-- what the extractor must find in producer_nf.go for the model's table to be the code's table -/
+def expectedCases : List (Nat × List Nat × String) :=
+  (caseTable.filter fun e => e.1 == 0).map goCase ++
+  [(9, [], "preamble: uptimeNs := uint64(uptime) * 1e6")] ++
+  (caseTable.filter fun e => e.1 != 0).map goCase
+
+/-- The `switch df.Type` of ConvertNetFlowDataSet, regenerated from producer_nf.go on every run,
+    is the table the model interprets: same element ids, same version scope, same Go text of every
+    case body; and the per-field preamble (value assertion, custom mapping, enterprise skip) is the
+    one the model's `convertFields` was written for. -/
+theorem cases_match : Goflow.Generated.netflowCases = expectedCases ∧
+    Goflow.Generated.netflowLoopPreamble =
+      "df := record[i] ; v, ok := df.Value.([]byte) ; if !ok { continue } ; if err := MapCustomNetFlow(flowMessage, df, mapperNetFlow); err != nil { return err } ; if df.PenProvided { continue }" := by
+  decide +kernel
+
+/-- DecodeUNumber reads a big-endian unsigned integer of any width 0..8 at full value -/
+theorem decodeUNumber_eq (b : Bytes) (h : b.length ≤ 8) : decodeUNumberRaw b = .ok (beNat b) := by
+  unfold decodeUNumberRaw
+  simp only
+  split
+  · rfl
+  · rename_i h1
+    have : b.length < 8 := by omega
+    simp only [this, if_true, shiftLoopBE_beNat]
+
+/-- … and rejects anything longer (an error, never a panic) -/
+theorem decodeUNumber_long (b : Bytes) (h : 8 < b.length) : decodeUNumberRaw b = .error .bad := by
+  unfold decodeUNumberRaw
+  simp only
+  have h1 : ¬ (b.length = 1 ∨ b.length = 2 ∨ b.length = 4 ∨ b.length = 8) := by omega
+  have h2 : ¬ b.length < 8 := by omega
+  simp [h1, h2]
+
+theorem decodeUNumberLE_eq (b : Bytes) (h : b.length ≤ 8) : decodeUNumberLERaw b = .ok (leNat b) := by
+  unfold decodeUNumberLERaw
+  simp only
+  split
+  · rfl
+  · rename_i h1
+    have : b.length < 8 := by omega
+    simp only [this, if_true, shiftLoopLE_leNat]
+
+/-- the destination truncates exactly as Go's `uint32(o)` / `uint16(o)` / `byte(o)` -/
+theorem writeDecoded_trunc (bits : Nat) (b : Bytes) (h : b.length ≤ 8) :
+    decodeUNumber bits b = .ok (beNat b % 2 ^ bits) := by
+  simp [decodeUNumber, decodeUNumber_eq b h]
+
+/-- a value that fits the column is stored at full value, for every encoded width 1..8 -/
+theorem full_value (bits : Nat) (b : Bytes) (h : b.length ≤ 8) (hfit : beNat b < 2 ^ bits) :
+    decodeUNumber bits b = .ok (beNat b) := by
+  rw [writeDecoded_trunc bits b h, Nat.mod_eq_of_lt hfit]
+
+/-- NetFlow v9 clock rule, in ℕ: with `first ≤ uptime` (milliseconds) and the difference not larger
+    than the export time, flow start = export time − (uptime − first) -/
+theorem v9_time (cfg : Option Config) (baseTime uptime : Nat) (m : FlowMsg) (v : Bytes)
+    (hv : v.length ≤ 8) (hfirst : beNat v < 2 ^ 32) (hle : beNat v ≤ uptime) (hup : uptime < 2 ^ 32)
+    (hbase : baseTime * 1000000000 < 2 ^ 64)
+    (hdiff : (uptime - beNat v) * 1000000 ≤ baseTime * 1000000000) :
+    applyAction cfg (baseTime * 1000000000) uptime m v .v9First =
+      .ok { m with timeFlowStartNs := baseTime * 1000000000 - (uptime - beNat v) * 1000000 } := by
+  simp only [applyAction, full_value 32 v hv hfirst, U64]
+  congr 2
+  simp only [Nat.reducePow] at *
+  omega
+
+/-- IPFIX clock rules: absolute seconds / milli- / micro- / nanoseconds are scaled to nanoseconds (mod 2^64) -/
+theorem ipfix_time (cfg : Option Config) (baseTimeNs uptime : Nat) (m : FlowMsg) (v : Bytes) (mult : Nat)
+    (hv : v.length ≤ 8) :
+    applyAction cfg baseTimeNs uptime m v (.ipfixTime true mult) =
+      .ok { m with timeFlowStartNs := (beNat v * mult) % 2 ^ 64 } := by
+  have : beNat v < 2 ^ 64 := by
+    have := beNat_lt v
+    calc beNat v < 256 ^ v.length := this
+      _ ≤ 256 ^ 8 := Nat.pow_le_pow_right (by decide) hv
+      _ = 2 ^ 64 := by decide
+  simp [applyAction, full_value 64 v hv this, U64]
+
+/-- the 14-bit sampling interval of the v5 header -/
+theorem v5_sampling_14bit (p : V5.Packet) : ∀ m ∈ processLegacy p, m.samplingRate = p.header.samplingInterval % 2 ^ 14 := by
+  intro m hm
+  simp only [processLegacy, List.mem_map] at hm
+  obtain ⟨_, ⟨_, _, rfl⟩, rfl⟩ := hm
+  rfl
+
+private theorem mod_shift (a d M K : Nat) (hd : d ≤ M) (hK : 1 ≤ K) :
+    (a + M - d) % M = (a + M * K - d) % M := by
+  have : a + M * K - d = (a + M - d) + M * (K - 1) := by
+    have h1 : M * K = M + M * (K - 1) := by
+      obtain ⟨k, rfl⟩ : ∃ k, K = k + 1 := ⟨K - 1, by omega⟩
+      simp [Nat.mul_succ, Nat.add_comm]
+    rw [h1]; omega
+  rw [this, Nat.add_mul_mod_self_left]
+
+/-- NetFlow v5 records against the documented mapping, for every record and header (all field values) -/
+theorem v5_record_eq_ref (p : V5.Packet) (recv : Nat) (exporter : Bytes) :
+    (processLegacy p).map (Pipe.stampRecv recv (Pipe.unmap exporter)) =
+      p.records.map fun r => Spec.FieldTable.refV5 p.header.sysUptime p.header.unixSecs p.header.unixNSecs
+        p.header.flowSequence p.header.samplingInterval r.toList recv exporter := by
+  simp only [processLegacy, List.map_map]
+  apply List.map_congr_left
+  intro r _
+  simp [Function.comp, convertLegacyRecord, Spec.FieldTable.refV5, Spec.FieldTable.stamp, Pipe.stampRecv, Pipe.unmap,
+    V5.Record.toList, U32, Spec.FieldTable.M64, FlowMsg.empty]
+  have hM : (18446744073709551616000000 : Nat) = 18446744073709551616 * 1000000 := by decide
+  refine ⟨?_, ?_, ?_⟩
+  rotate_left
+  · rw [hM]; exact mod_shift _ _ _ _ (by omega) (by decide)
+  · rw [hM]; exact mod_shift _ _ _ _ (by omega) (by decide)
+  have hsplit : List.take 12 exporter = List.take 10 exporter ++ List.take 2 (List.drop 10 exporter) := by
+    rw [← List.take_add]
+  rw [hsplit]
+  by_cases h1 : List.take 10 exporter = [0, 0, 0, 0, 0, 0, 0, 0, 0, 0]
+  · by_cases h2 : List.take 2 (List.drop 10 exporter) = [255, 255]
+    · simp [h1, h2]
+    · have : ¬ (List.take 10 exporter ++ List.take 2 (List.drop 10 exporter) = [0, 0, 0, 0, 0, 0, 0, 0, 0, 0, 255, 255]) := by
+        rw [h1]; intro h; exact h2 (by simpa using h)
+      simp [h2, this]
+  · by_cases hl : exporter.length = 16
+    · have : ¬ (List.take 10 exporter ++ List.take 2 (List.drop 10 exporter) = [0, 0, 0, 0, 0, 0, 0, 0, 0, 0, 255, 255]) := by
+        intro h
+        have h10 : (List.take 10 exporter).length = 10 := by simp [hl]
+        have h' : List.take 10 exporter ++ List.take 2 (List.drop 10 exporter) = [0, 0, 0, 0, 0, 0, 0, 0, 0, 0] ++ [255, 255] := h
+        have := List.append_inj h' (by simp [h10])
+        exact h1 this.1
+      simp [h1, this]
+    · simp [hl]
+
+end Goflow.C08
